@@ -49,6 +49,15 @@ def _col_bytes(s):
     h = _h()
     h.update(str(dt).encode())
     try:
+        # fast path: pandas' own C-level content hashing (not dask's tokenize), NaN-aware, layout independent
+        if isinstance(dt, pd.CategoricalDtype):
+            h.update(repr(list(dt.categories)).encode() + str(dt.ordered).encode())
+        ser = s if isinstance(s, pd.Series) else pd.Series(s)
+        h.update(np.ascontiguousarray(pd.util.hash_pandas_object(ser, index=False, categorize=False).to_numpy()).tobytes())
+        return h.digest()
+    except Exception:
+        pass
+    try:
         if isinstance(dt, pd.CategoricalDtype):
             h.update(_arr_bytes(np.asarray(s.cat.codes if hasattr(s, "cat") else s.codes)))
             h.update(repr(list(dt.categories)).encode())
